@@ -81,7 +81,7 @@ def run(chk):
                 '(results identified by source offset, compared as multisets). A case is a document.')
     sc = [('docs', {'Budget': 3 if quick else 4}),
           ('nested', {'Budget': 4 if quick else 5, 'TextPool': ['t', ' '], 'ComPool': [], 'MathKinds': ['$', '\\['], 'MEnvNames': ['equation'],
-                      'VerbNames': [], 'Leaves': [], 'CmdNames': ['a', 'a*'], 'EnvNames': ['e'], 'Labels': [''], 'MaxSib': 2, 'MaxDepth': 4, 'MaxArgs': 2}),
+                      'VerbNames': [], 'Leaves': [], 'CmdNames': ['a', 'a*', 'text'], 'EnvNames': ['e'], 'Labels': [''], 'MaxSib': 2, 'MaxDepth': 4, 'MaxArgs': 2}),
           ('envarg-deep', {'Budget': 6, 'TextPool': [], 'ComPool': [], 'MathKinds': [], 'MEnvNames': [], 'VerbNames': [], 'Leaves': [], 'CmdNames': ['a', 'b*'],
                            'EnvNames': ['e'], 'ListNames': ['itemize'], 'Labels': ['', 'l'], 'MaxSib': 1, 'MaxDepth': 6, 'MaxArgs': 1})]
     for label, pools in sc:
